@@ -559,6 +559,8 @@ struct Cli {
     faulted: bool,
     half: bool,
     junk: bool,
+    plain: bool,    // plain bytes (or silence) towards a TLS listener
+    prefixed: bool, // sent a strict prefix of the HTTP/2 preface and nothing else
     sent: Vec<usize>,
     aidx: usize,
     h2body: HashMap<usize, mpsc::UnboundedSender<Bytes>>,
@@ -577,6 +579,8 @@ impl Cli {
             faulted: false,
             half: false,
             junk: false,
+            plain: false,
+            prefixed: false,
             sent: vec![],
             aidx: 0,
             h2body: HashMap::new(),
@@ -776,6 +780,8 @@ struct Runner {
     srv_state: String,
     stalled: bool,
     resets: usize,
+    odd_peers: usize,
+    odd_paths: Vec<std::path::PathBuf>,
     clis: Vec<Cli>, // index 0 unused
     probes: Vec<Cli>,
     pending_q: VecDeque<(bool, usize)>, // (is_probe, index)
@@ -958,6 +964,8 @@ impl Runner {
             srv_state: "running".into(),
             stalled: false,
             resets: 0,
+            odd_peers: 0,
+            odd_paths: vec![],
             clis,
             probes: vec![],
             pending_q: VecDeque::new(),
@@ -1010,7 +1018,36 @@ impl Runner {
 
     /// Start a connect: the request is queued (first poll) but nothing else runs.
     fn start_connect(&mut self, probe: bool, i: usize, mode: &str) {
-        let fut = self.connect_fut();
+        self.start_connect_ext(probe, i, mode, false)
+    }
+
+    /// unix-peer-nonutf8-path: the client binds its own end to a pathname that is not valid UTF-8 before it
+    /// connects (an otherwise perfectly well-behaved client)
+    fn odd_connect_fut(&mut self) -> Option<ConnFut> {
+        use std::os::unix::ffi::OsStrExt;
+        let server = match &self.dial {
+            Dial::Unix(p) => p.clone(),
+            _ => return None,
+        };
+        self.odd_peers += 1;
+        let mut name = server.parent().map(|d| d.as_os_str().as_bytes().to_vec()).unwrap_or_default();
+        name.extend_from_slice(format!("/cl\u{0}-{}-{}", std::process::id(), self.odd_peers).as_bytes());
+        if let Some(pos) = name.iter().position(|b| *b == 0) {
+            name[pos] = 0xff; // not valid UTF-8
+        }
+        name.extend_from_slice(b"ient.sock");
+        let path = std::path::PathBuf::from(std::ffi::OsStr::from_bytes(&name));
+        let _ = std::fs::remove_file(&path);
+        self.odd_paths.push(path.clone());
+        Some(Box::pin(async move {
+            let sock = tokio::net::UnixSocket::new_stream()?;
+            sock.bind(&path)?;
+            sock.connect(server).await.map(|s| Box::new(s) as BoxIo)
+        }))
+    }
+
+    fn start_connect_ext(&mut self, probe: bool, i: usize, mode: &str, odd: bool) {
+        let fut = if odd { self.odd_connect_fut() } else { self.connect_fut() };
         let c = self.cli(probe, i);
         c.mode = mode.to_string();
         match fut {
@@ -1167,7 +1204,7 @@ impl Runner {
 
     fn send_part(&mut self, probe: bool, i: usize, k: usize, p: &str) -> bool {
         let c = self.cli(probe, i);
-        if c.state != "open" || c.cmd.is_none() {
+        if c.state != "open" || c.cmd.is_none() || c.plain || c.prefixed {
             return false;
         }
         while c.sent.len() <= k {
@@ -1214,9 +1251,16 @@ impl Runner {
                 }
                 let mode = if s.mode.is_empty() { self.default_mode().to_string() } else { s.mode.clone() };
                 if self.cfg.tls && (mode == "raw") {
-                    self.clis[i].coop = false; // plain bytes to a TLS server: stalled / failed handshake
+                    // a peer that has not (yet) started its TLS handshake: silent, it is an idle open connection
+                    // (must be told and closed at the signal); it only misbehaves once it sends garbage.
+                    // (hyper's h2 server keeps a connection whose handshake has not completed: not demanded)
+                    self.clis[i].plain = true;
+                    if self.cfg.proto == "h2" {
+                        self.clis[i].coop = false;
+                    }
                 }
-                self.start_connect(false, i, &mode);
+                let odd = s.p == "odd" && matches!(self.dial, Dial::Unix(_));
+                self.start_connect_ext(false, i, &mode, odd);
                 true
             }
             "CancelConnect" => {
@@ -1253,13 +1297,16 @@ impl Runner {
                 if i == 0 || i >= self.clis.len() || self.clis[i].state != "open" || self.clis[i].is_h2() {
                     return false;
                 }
+                if self.cfg.proto != "auto" {
+                    return false; // only the sniffing protocol parks such a connection in hyperdriver's own code
+                }
                 let c = &mut self.clis[i];
-                if c.sent.iter().any(|x| *x > 0) || c.junk || c.half {
+                if c.sent.iter().any(|x| *x > 0) || c.junk || c.half || c.plain || c.prefixed {
                     return false;
                 }
                 let n = s.k.clamp(1, 23);
-                c.coop = false;
-                c.junk = true;
+                // a slow / stalled HTTP/2 client: it misbehaves only once it goes away
+                c.prefixed = true;
                 let _ = c.cmd.as_ref().unwrap().send(Cmd::Write(b"PRI * HTTP/2.0\r\n\r\nSM\r\n\r\n"[..n].to_vec()));
                 true
             }
@@ -1519,7 +1566,7 @@ impl Runner {
             "srv": self.srv_state, "srvAtSignal": g.srv_at_signal, "stalled": self.stalled, "sigFireSeq": g.sig_fire_seq,
             "sigFired": g.sig_fired, "sigSeq": g.sig_seq,
             "acceptSeqs": g.accept_ok, "acceptErrs": g.accept_err, "makes": g.makes, "makePending": make_pending,
-            "listenerLost": self.listener_lost, "makeFailed": self.make_failed, "cancelled": self.cancelled,
+            "listenerLost": self.listener_lost, "makeFailed": self.make_failed, "cancelled": self.cancelled, "oddPeers": self.odd_peers,
             "spawned": g.spawned, "finished": g.finished,
             "events": new_events,
             "conns": conns,
@@ -1665,8 +1712,11 @@ impl Runner {
         // connect the next unused client
         if let Some(i) = (1..self.clis.len()).find(|i| self.clis[*i].state == "none") {
             let mut s = mk("Connect", i, 0, "");
-            if self.cfg.tls && c09 && rng.gen_bool(0.35) {
+            if self.cfg.tls && rng.gen_bool(if c09 { 0.35 } else { 0.2 }) {
                 s.mode = "raw".into();
+            }
+            if c09 && matches!(self.dial, Dial::Unix(_)) && rng.gen_bool(0.35) {
+                s.p = "odd".into();
             }
             v.push((s, 8));
         }
@@ -1687,13 +1737,13 @@ impl Runner {
                 }
                 let sent = c.sent.get(k).copied().unwrap_or(0);
                 let ready = !c.is_h2() || c.st.lock().unwrap().h2ready;
-                if sent < 4 && ready {
+                if sent < 4 && ready && !c.plain && !c.prefixed {
                     v.push((mk("Send", i, k, PARTS[sent]), 14));
                 }
             }
-            if c09 && self.cfg.proto == "auto" && !c.is_h2() && c.coop && !c.sent.iter().any(|x| *x > 0) {
+            if self.cfg.proto == "auto" && !c.is_h2() && c.coop && !c.plain && !c.prefixed && !c.sent.iter().any(|x| *x > 0) {
                 let n = [1usize, 5, 14, 18, 23][rng.gen_range(0..5)];
-                v.push((mk("Prefix", i, n, ""), 4));
+                v.push((mk("Prefix", i, n, ""), if c09 { 4 } else { 3 }));
             }
             let faults = c09 || rng.gen_bool(0.25);
             if faults {
@@ -1825,7 +1875,7 @@ async fn run_schedule(cfg: Cfg, tls: Option<&TlsMat>, paused: bool, scratch: &st
                     // a cancelled connect needs the connect queued and not yet accepted
                     s.ns = rng.gen_bool(if s.a == "Connect" && c09 { 0.5 } else { 0.2 });
                 }
-                if s.a == "Prefix" {
+                if s.a == "Prefix" && c09 {
                     // the prefix is followed by the client going away (drop, or half-close)
                     s.ns = rng.gen_bool(0.5);
                     forced.push_back(Step { a: if rng.gen_bool(0.5) { "Disconnect".into() } else { "Trunc".into() }, c: s.c, ..Default::default() });
@@ -1848,6 +1898,9 @@ async fn run_schedule(cfg: Cfg, tls: Option<&TlsMat>, paused: bool, scratch: &st
     }
     r.finish().await;
     if let Dial::Unix(p) = &r.dial {
+        let _ = std::fs::remove_file(p);
+    }
+    for p in r.odd_paths.iter() {
         let _ = std::fs::remove_file(p);
     }
     let mut cfg2 = cfg;
